@@ -7,20 +7,21 @@ CONSTANTS
   OffsetReset = "all"
   LateResp = "drop"
   HWFallback = FALSE
-  ElectAlive = FALSE
-  AllowLag = FALSE
-  ElectDown = TRUE
-  MaxMsgs = 3
-  MaxElect = 2
-  MaxCrash = 2
-  MaxIsrOps = 2
+  ElectAlive = TRUE
+  AllowLag = TRUE
+  ElectDown = FALSE
+  MaxMsgs = 2
+  MaxElect = 1
+  MaxCrash = 1
+  MaxIsrOps = 0
   MaxRejects = 0
   Policies = {"ALL"}
   UseCheckpoint = FALSE
-  MaxPause = 0
-  MaxHold = 0
+  MaxPause = 1
+  MaxHold = 1
   Batch = 1
   IgnoreTaints = FALSE
-INVARIANTS NoBadAck_EpochGap
+INVARIANTS Inv_CommittedSurvives Inv_NoDivergence Inv_HWBacked Inv_Nacked Inv_Struct
+PROPERTIES AcksOK HWMono
 VIEW MCView
 CHECK_DEADLOCK FALSE
